@@ -18,10 +18,19 @@ def decide(ck, arts):
         raise vp.Infra("PrecCheck did not complete:\n" + r.out[-3000:])
     ck.coverage["traces_validated_against_impl"] += len(arts)
     rej = r.printed("REJECTED")
-    if rej:
-        a = arts[rej[0]["id"]]
+    other = []
+    for d in rej:
+        a = arts[d["id"]]
+        if "precedence level" in a["err"]:
+            # the directives are well-formed (no handle is listed twice): the recorded levels must be wrong
+            ck.violation("spec %r is rejected because of its precedence levels although no handle is listed twice: %s" %
+                         (a["text"].replace("\n", " "), a["err"].replace("\n", " ")[:200]),
+                         {"property": "C12", "kind": "levels-rejected", "text": a["text"], "decls": a["decls"]})
+        else:
+            other.append(a)
+    if other:
         raise vp.Infra("%d generated well-formed specifications were rejected (C07's business), e.g. %r: %s" %
-                       (len(rej), a["text"], a["err"][:200]))
+                       (len(other), other[0]["text"], other[0]["err"][:200]))
     for d in r.printed("LEVELS"):
         a = arts[d["id"]]
         dirs = [x for x in a["decls"] if x["k"] == "dir"]
